@@ -54,6 +54,7 @@ func (s *Slot) Check(ctx *base.EntryContext) *base.TokenResult {
 
 	if len(outlierNodes) != 0 {
 		if rule.EnableActiveRecovery && len(retryerCh) < capacity {
+			noteRetryTaskQueuedUnder(resource, rule)
 			retryerCh <- task{outlierNodes, resource}
 		}
 		if len(recyclerCh) < capacity {
